@@ -14,6 +14,7 @@ RULES = {
     "C06.R4": "moves: QBytes _to_copy keeps the payload dtype and converts the scale only; QBits _to_copy refuses dtype changes, moves payload/zero-point without dtype and rebuilds through create(); detach keeps the class",
     "C06.R5": "flatten/unflatten agreement: key sets, length assertions, constructor argument mapping",
     "C06.R6": "in move/copy handlers the payload never meets arithmetic",
+    "C06.R11": "the number of groups per index of the axis is (numel // shape[axis]) // group_size wherever it is computed (rule C14.R8 re-checked): a sub-byte tensor rebuilt from selected groups holds one code per element",
     "C06.R10": "sub-byte tensors: the payload of a QBitsTensor is grouped (and packed), so its shape is not the tensor's - no constructor or factory call of the QBits classes takes its size or stride argument from the payload it passes",
     "C06.R9": "freshly quantized tensors: the quantizers only accept a scale laid out along the axis they record (per-axis: one extent, equal to the base's, on that axis; per-tensor: a 0-dim scale, so the payload keeps the base's shape) - the acceptance guards of C14.R1, plus the 0-dim clause",
     "C06.R8": "scale/axis agreement: a handler that changes the payload geometry keeps the scale only when it is 0-dim (per-tensor); scalar rescaling only for operands that do not broadcast (is_scalar definition)",
@@ -49,6 +50,11 @@ def run(chk):
                 "any tensor of that class taken through __tensor_flatten__ / __tensor_unflatten__ (torch.compile, FakeTensor tracing, state_dict helpers)")
     quantizer_geometry(chk)
     qbits_geometry(chk)
+    if chk.pid == "C06":
+        # "exactly one code per element": a sub-byte tensor rebuilt from a selection of its groups holds as many groups per index as the grouping made
+        from . import c14 as _c14
+        from ..report import AliasedCheck as _AC
+        _c14.group_count_rule(_AC(chk, {"C14.R8": "C06.R11"}), "C14.R8")
     if chk.pid == "C06":
         from ..report import AliasedCheck
         from . import c14
